@@ -36,6 +36,7 @@ type collector struct {
 	mode      string
 	shrinkCap map[string]int
 	coq       *coqWriter
+	wfCases   int // histories that ended with a wf-* predicate failure
 }
 
 func (c *collector) add(r *runner, kind string, id string) {
@@ -61,6 +62,12 @@ func (c *collector) add(r *runner, kind string, id string) {
 	}
 	if len(c.samples) < 4 && (c.cases == 3 || c.cases == 60 || c.cases%997 == 0) {
 		c.samples = append(c.samples, kind+": "+opsString(r.ops))
+	}
+	for _, x := range r.fails {
+		if strings.HasPrefix(x.class, "wf-") {
+			c.wfCases++
+			break
+		}
 	}
 	if len(r.fails) > 0 {
 		sig := r.signature()
@@ -94,7 +101,7 @@ func (c *collector) summary(path string) {
 		panic(err)
 	}
 	defer f.Close()
-	fmt.Fprintf(f, "cases %d\nsteps %d\nnontrivial %d\n", c.cases, c.steps, len(c.nontriv))
+	fmt.Fprintf(f, "cases %d\nsteps %d\nnontrivial %d\nwfcases %d\n", c.cases, c.steps, len(c.nontriv), c.wfCases)
 	keys := make([]string, 0, len(c.hist))
 	for k := range c.hist {
 		keys = append(keys, k)
@@ -289,6 +296,61 @@ func growGaps(c *collector) {
 	}
 }
 
+// finding D36 on purpose: two or three enum signals of one layout (a message, or a group of a multiplexer)
+// with every small arrangement of gaps behind them, and the enum grows by 1..3 bits. The observed outcome
+// (map order!) must be the model's outcome for SOME visiting order of the referencing signals.
+func d36Family(c *collector) {
+	gaps := []int{0, 1, 2}
+	n := 0
+	for container := 0; container < 2; container++ {
+		for refs := 2; refs <= 3; refs++ {
+			for _, g1 := range gaps {
+				for _, g2 := range gaps {
+					for _, g3 := range gaps {
+						for grow := 1; grow <= 3; grow++ {
+							if refs == 3 && (g3 == 2 || grow == 3) {
+								continue
+							}
+							ops := []op{{k: "newenum"}}
+							first := 0
+							if container == 0 {
+								ops = append(ops, mk("newmsg", 0, 0, 2))
+							} else {
+								ops = append(ops, mk("newmux", 2, 0, 16))
+								first = 1
+							}
+							for i := 0; i < refs; i++ {
+								ops = append(ops, mk("newenumsig", 0, 0, 0))
+							}
+							ops = append(ops, mk("newstd", 0, 0, 2))
+							// enum signals of 1 bit at 0, 1+g1, (2+g1+g2); the 2-bit signal behind the last one after g3
+							pos := []int{0, 1 + g1}
+							if refs == 3 {
+								pos = append(pos, 2+g1+g2)
+							}
+							last := pos[len(pos)-1] + 1 + g3
+							if refs == 2 {
+								last += g2
+							}
+							pos = append(pos, last)
+							for i, p := range pos {
+								if container == 0 {
+									ops = append(ops, mk("insert", 0, first+i, p))
+								} else {
+									ops = append(ops, op{k: "muxinsert", a: 0, b: first + i, z: p, gids: []int{1}})
+								}
+							}
+							ops = append(ops, mk("addvalue", 0, 0, 1<<uint(grow)))
+							n++
+							c.add(replay(ops, true), "d36-zone", fmt.Sprintf("d36-zone-%d", n))
+						}
+					}
+				}
+			}
+		}
+	}
+}
+
 // histories kept from earlier findings (always run first)
 var corpus = map[string][]string{
 	"c01": {
@@ -396,9 +458,7 @@ func main() {
 		}
 		fmt.Printf("SIGNATURE %s\n", r.signature())
 		c.add(r, "replay", "replay-1")
-		out.Flush()
-		f.Close()
-		c.summary(outPath + ".summary")
+		finish(c, out, f, outPath)
 		return
 	}
 
@@ -407,6 +467,7 @@ func main() {
 	}
 
 	growGaps(c)
+	d36Family(c)
 
 	nRandom, nOps, depth := 400, 30, 3
 	if mode == "c07" {
@@ -461,7 +522,17 @@ func main() {
 			}
 		}
 	}
-	out.Flush()
-	f.Close()
+	finish(c, out, f, outPath)
+}
+
+// the END line closes the stream: the driver reports a stream without it as truncated
+func finish(c *collector, out *bufio.Writer, f *os.File, outPath string) {
+	fmt.Fprintf(out, "END %d %d\n", c.cases, c.steps)
+	if err := out.Flush(); err != nil {
+		panic(err)
+	}
+	if err := f.Close(); err != nil {
+		panic(err)
+	}
 	c.summary(outPath + ".summary")
 }
